@@ -71,13 +71,14 @@ type c12Input struct {
 }
 
 type c12Obs struct {
-	run    *hist.Run
-	dump   string   // canonical dump taken the moment the call returned
-	order  []string // order finding per parent version, taken the moment the call returned
-	nUpd   []int
-	fresh  bool // the input was rebuilt from the model (otherwise an eq.Clone of the first build)
-	seqNo  int  // position of the call in the session
-	listTx []string
+	run      *hist.Run
+	dump     string   // canonical dump taken the moment the call returned
+	order    []string // order finding per parent version, taken the moment the call returned
+	nUpd     []int
+	fresh    bool // the input was rebuilt from the model (otherwise an eq.Clone of the first build)
+	children bool // the datasource was used in its AsChildren configuration
+	seqNo    int  // position of the call in the session
+	listTx   []string
 }
 
 // c12Session annotates every input K = 12 times in one process: round k visits the inputs in
@@ -110,11 +111,18 @@ func c12Session(res *fw.Result, ins []c12Input, r *gen.R) {
 			h := ins[i].h
 			o := &c12Obs{fresh: k%2 == 1, seqNo: seq}
 			seq++
-			if o.fresh {
+			// rounds 2,3 of every four use the datasource's "children" configuration
+			// (annotate.*AsChildrenDatasourcer): same result required
+			asChildren := k%4 >= 2
+			switch {
+			case o.fresh && asChildren:
+				o.run = h.ExecuteChildren()
+			case o.fresh:
 				o.run = h.Execute()
-			} else {
-				o.run = h.ExecuteOn(eq.Clone(ways0[i]), eq.Clone(rels0[i]))
+			default:
+				o.run = h.ExecuteOnWith(eq.Clone(ways0[i]), eq.Clone(rels0[i]), asChildren)
 			}
+			o.children = asChildren
 			// observe at once: the result must be complete and ordered when the call returns
 			if o.run.Panic == "" && o.run.Err == nil {
 				for pi := range h.Parents {
@@ -246,6 +254,9 @@ func c12Judge(res *fw.Result, in c12Input, obs []*c12Obs) {
 				how := "clone of the first build"
 				if obs[k].fresh {
 					how = "independently rebuilt equal input"
+				}
+				if obs[k].children {
+					how += ", AsChildren datasource"
 				}
 				res.Violate("C12/nondeterministic/"+shapeOf(i, us),
 					fmt.Sprintf("run %d (%s, call %d of the session) differs from run 0 (call %d) on equal input in %s (map orders %q vs %q): %s",
